@@ -47,6 +47,7 @@ def injected_faults(sc, seed, tier, only=None):
     Judged against the statement: the run ends; exit 0 implies the C01 postcondition; a non-zero exit comes with an error object;
     every file the failing call did not touch ends up correct (error budget not exhausted)."""
     import errno as E, subprocess, c09
+    ef_cases, ef_obs = [], []
     viol, stats = [], {"worlds": 0, "runs": 0, "pairs": 0, "by_call": {}, "by_errno": {}, "exit_nonzero": 0}
     ok, out = c09.build_shim()
     if not ok:
@@ -73,7 +74,9 @@ def injected_faults(sc, seed, tier, only=None):
             if os.path.exists(log):
                 os.remove(log)
             e2 = dict(env); e2.update(extra)
-            case, obs, raw = ew.run_once(sc, base + "/src", base + "/dst", fl, ew.Ids(), extra_env=e2)
+            ids = ew.Ids()
+            case, obs, raw = ew.run_once(sc, base + "/src", base + "/dst", fl, ids, extra_env=e2)
+            raw["case"], raw["obs"], raw["ids"] = case, obs, ids
             lines = {}
             if os.path.exists(log):
                 for l in open(log, errors="replace"):
@@ -117,6 +120,17 @@ def injected_faults(sc, seed, tier, only=None):
             else:
                 for f in c01.c01_oracle(fl, raw, 0):
                     viol.append(dict(ident, why="exit status 0 although the C01 postcondition fails: %s %s" % (f["path"], f["why"])))
+            # correspondence with Model/EngineFaults.v: given WHICH transfers failed (the error objects) and WHAT they left at their own
+            # paths (junk), the rest of the run -- every other path, the events, the exit status -- must be run_f's
+            errp = set(raw["errpaths"])
+            if errp and all(pth in raw["src"] and raw["src"][pth]["kind"] == "f" for pth in errp) and not raw["refused"]:
+                idp = {raw["ids"].path(pth) for pth in errp}
+                dst_items = dict(x.split("=", 1) for x in raw["obs"].split(" ")).get("dst", "-")
+                junk = [it for it in dst_items.split(",") if it != "-" and it.split(":")[1] in idp]
+                ef_cases.append("EF" + raw["case"][1:] + " %s %s" % (",".join(sorted(idp)), ",".join(junk) or "-"))
+                ef_obs.append((raw["obs"], dict(ident)))
+            elif errp:
+                stats["ef_skipped"] = stats.get("ef_skipped", 0) + 1
             # files the failing calls did not touch
             dstroot = base + "/dst/"
             touched = set()
@@ -144,6 +158,15 @@ def injected_faults(sc, seed, tier, only=None):
                 if d is False and b is not None and (a is None or a.get("sha") != b["sha"]):
                     viol.append(dict(ident, why="file %s was up to date, not touched by the failing call(s), and is changed or gone" % rel))
         shutil.rmtree(base, ignore_errors=True); shutil.rmtree(tpl, ignore_errors=True)
+    strip = lambda x: " ".join(t for t in x.split(" ") if not t.startswith("nerr="))
+    efd = []
+    for case, (o, ident), m in zip(ef_cases, ef_obs, [ew.model_obs(x) for x in vlib.run_model(ef_cases)] if ef_cases else []):
+        canon = lambda x: ew.norm_events(" ".join(("nerr=0" if t.startswith("nerr=") else t) for t in x.split(" ")))
+        if strip(o) != strip(m) and canon(o) != canon(m):
+            efd.append(dict(ident, case=case, impl=o, model=m))
+    stats["ef_compared"] = len(ef_cases)
+    stats["ef_disagreements"] = len(efd)
+    stats["ef_first"] = efd[:1]
     return viol, stats
 
 
@@ -227,7 +250,7 @@ def run(tier, seed):
     res.cov["rule"] = ("C01 worlds with natural faults: a directory where the source has a file (EISDIR), a regular file where the source has a directory with children (ENOTDIR for every descendant), "
                        "error budgets 0/1/2/100; non-trivial = at least one planned operation fails")
     res.cov["samples"] = [c[:300] for c in cases[:2]] + [obs_l[0][:300]]
-    res.cov["trusted_base"] = TRUSTED_COMMON + ["errno kinds are compared as (path, action) failures only", "injected faults: libc-level interposition (a fault inside a direct syscall of the runtime is not reachable)", "the injected-fault runs are judged against the statement only (Engine.v has natural faults)"]
+    res.cov["trusted_base"] = TRUSTED_COMMON + ["errno kinds are compared as (path, action) failures only", "injected faults: libc-level interposition (a fault inside a direct syscall of the runtime is not reachable)", "injected-fault runs: which transfers failed and what they left at their own paths is taken from the run (error objects, snapshot) and given to EngineFaults.run_f; everything else is compared"]
     res.cov["fault_injection"] = dict(inj_stats, how="LD_PRELOAD shim (shim/crashshim.c): the k-th mutating libc call below the scratch root fails with the chosen errno; every k of each world (sampled above a cap), plus pairs")
     res.cov["known_finding_hits"] = {k: len(v) for k, v in hits.items()}
     for cls, f in known.items():
@@ -236,6 +259,8 @@ def run(tier, seed):
             res.known.append("%s %s [%d cases this run, e.g. world %s]" % (f["id"], f["what"], len(h), h[0]["world"]))
     for v in viol[:3]:
         res.violation("world", v)
+    if inj_stats.get("ef_disagreements"):
+        diffs = diffs + [{"injected": True, **inj_stats["ef_first"][0]}]
     if not viol and (diffs or pr["broken"]):
         what = list(pr["broken"]) + (["the binary differs from Engine.run on %d faulted runs; first: %s" % (len(diffs), json.dumps(diffs[0])[:1500])] if diffs else [])
         res.violation("unproved", {"no_failing_input_found": True, "what_no_longer_checks": what, "first_case": diffs[0] if diffs else None}, no_input=True)
